@@ -14,6 +14,14 @@ CLAIMS = {
          "TLA+ spec TextCodecs (Base58/Base58Check/BIP173 as functions on code sequences) model-checked by TLC for mutual inverseness on the exhaustive small scope; every call executed on the real code is recorded and judged by TLC trace validation (Trace_TextCodecs), incl. argument-memory purity",
          "model checking of the codec definitions (all byte strings <= 2, all alphabet strings <= 3, bech32 small scope) plus TLC trace validation of tens of thousands of recorded calls of the real functions; the oracle is an independent byte-level definition, not the code's output",
          "SHA-256 is an environment function evaluated with crypto/sha256; purity is observed up to cap of the argument slices"),
+ "C01": ("DESIGN.md §4 C01",
+         "TLA+ spec AddressCodec (CashAddr/SLP/legacy/pubkey addresses as values with prescribed strings + strict decoder) model-checked for encode->decode round trip on a toy configuration; real constructor and DecodeAddress calls for all nets/kinds/renderings judged by TLC trace validation",
+         "model checking of the address specification (round trip of every kind and rendering; version-byte sweep) plus TLC trace validation of every constructor / String / EncodeAddress / ScriptAddress / IsForNet / DecodeAddress observation recorded from the real code",
+         "SHA-256, RIPEMD-160 and secp256k1 curve membership are environment functions computed by the harness; network parameters are read from chaincfg at run time"),
+ "C02": ("DESIGN.md §4 C02",
+         "TLC generates strings with VALID checksums over all 256 version bytes x payload lengths 0..65 from the specification's encoder (Gen_AddressCodec); these and structured pad-bit / prefix / case / Base58Check / hex-pubkey families are decoded by the real code and TLC decides each accept/reject and canonical re-encoding against the strict decoder of AddressCodec",
+         "model checking (the strict reader accepts exactly the three standard version/length pairs and no non-zero padding) plus TLC trace validation of tens of thousands of DecodeAddress calls on adversarially constructed valid-checksum strings",
+         "as C01; mixed-case renderings may be accepted or rejected (case folding is a documented normalisation)"),
 }
 
 NOT_YET = "check not built yet in this round; see DESIGN.md for the planned TLA+ model"
